@@ -315,6 +315,7 @@ func init() {
 			if alt != (gen.Alt{}) {
 				c.Inc("probe:alternative-encodings (LONG for SHORT, ISO x2, slot padding)")
 			}
+			nikonNote(c, rec)
 			ref := drawEmbedCase(c, g, gen.CTIFF, rec, opts, false, alt)
 			cand := drawEmbedCase(c, g, kind, rec, opts, true, alt)
 			if !ref.okLimit || !cand.okLimit {
@@ -416,6 +417,7 @@ func init() {
 				c.Inc("probe:alternative-encodings (LONG for SHORT, ISO x2, slot padding)")
 			}
 			c.Descf("alt encodings: %+v", alt)
+			nikonNote(c, rec)
 			ec := drawEmbedCase(c, g, kind, rec, o, g.Bool(), alt)
 			if !ec.okLimit {
 				return
@@ -467,4 +469,18 @@ func init() {
 		},
 	}}
 	Register(p)
+}
+
+// nikonNote (side lane) turns the record into a Nikon file with a type-3 maker note whose nested
+// TIFF block carries its own byte-order mark: the blob is identical in both encodings of the
+// record, so whatever the library derives from it must be identical too.
+func nikonNote(c *Ctx, rec *gen.Record) {
+	x := c.L("gen:x")
+	if !x.Chance(1, 8) {
+		return
+	}
+	mk := "NIKON CORPORATION"
+	rec.Make = &mk
+	rec.MakerNote = gen.NikonMakerNote(x.Bool(), core.NewSplitMix(x.U64()|1))
+	c.Inc("probe:nikon-makernote-with-own-byte-order")
 }
